@@ -9,7 +9,7 @@ from typing import Dict, List, Optional, Set, Tuple
 from ..core import astutil as A
 from ..core.index import AnalysisError, FuncInfo
 from ..selftest import M
-from .common import ext_name, branch_values, entails, BASE_OUTLINE, OTF_OUTLINE, TTF_OUTLINE, T, attr_stores, calls_named, conds, every_origin, facts, may_conds, need, subscript_stores, where
+from .common import is_early_exit_guard, ext_name, branch_values, entails, BASE_OUTLINE, OTF_OUTLINE, TTF_OUTLINE, T, attr_stores, calls_named, conds, every_origin, facts, may_conds, need, subscript_stores, where
 from .rounding import is_otround
 
 
@@ -27,6 +27,7 @@ def run(prog, chk):
     ]
     chk.decided += ["the CFF glyph box encloses the compiled outline: a box value is only rounded to nearest where the charstring pen rounds the coordinate too (tolerance >= 0.5, or the value within the "
                     "tolerance of its rounding - fontTools' roundFunc), otherwise minima are floored and maxima ceiled; pen and box use the same tolerance (R04.11)"]
+    chk.decided += ["OS/2.xAvgCharWidth is derived from the compiled advances: fontTools' recalcAvgCharWidth is run on the font being built, after hmtx exists, and nothing stores the field by hand (R04.12)"]
     chk.not_decided += ["save / reload / re-save byte identity (fontTools)", "glyph bounding box arithmetic (pens)", "values recalculated by fontTools at compile time (maxp for glyf, OS/2 indices)"]
     chk.guard(r041, prog, chk)
     chk.guard(r042, prog, chk)
@@ -39,6 +40,7 @@ def run(prog, chk):
     chk.guard(r049, prog, chk)
     chk.guard(r0410, prog, chk)
     chk.guard(r0411, prog, chk)
+    chk.guard(r0412, prog, chk)
 
 
 # ----------------------------------------------------------------------------- R04.1
@@ -602,7 +604,37 @@ def r0411(prog, chk):
     chk.minimum("R04.11", 5)
 
 
+# ----------------------------------------------------------------------------- R04.12
+def r0412(prog, chk):
+    ix = prog.ix
+    f = ix.get_method(BASE_OUTLINE, "setupTable_OS2", own=True)
+    rc = [c for c in calls_named(f, "recalcAvgCharWidth")]
+    ok = len(rc) == 1 and len(rc[0].args) == 1 and T(rc[0].args[0]) == "self.otf" \
+        and not [g for g in may_conds(prog, f, rc[0]) if g.kind in ("if", "boolop", "ifexp", "while", "for") and not is_early_exit_guard(prog, f, g)]
+    if ok:
+        # on the table object that is installed as OS/2
+        tv = rc[0].func.value
+        okt, _ = every_origin(prog, f, tv, lambda x, ff: isinstance(x, ast.Call) and A.callee_name(x) == "newTable" and x.args and A.is_const(x.args[0], "OS/2"), allow_const=False)
+        ok = okt
+    chk.ob("R04.12", f"{f.short}|xAvgCharWidth recalculated by fontTools from the font being built", ok, where(f, rc[0]) if rc else where(f), detail=T(rc[0], 60) if rc else "no recalcAvgCharWidth call",
+           message=f"{f.short}: OS/2.xAvgCharWidth is no longer recalculated from the compiled hmtx (the average of the stored, rounded, non-zero advances): the field can disagree with the advances in the same font")
+    stores = [(fi, s_) for fi in ix.functions.values() if not isinstance(fi.node, ast.Lambda) for s_, t, v in attr_stores(fi, "xAvgCharWidth")]
+    chk.ob("R04.12", "nothing stores xAvgCharWidth by hand", not stores, where(stores[0][0], stores[0][1]) if stores else "", detail=f"{len(stores)} store(s)",
+           message=f"{stores[0][0].short if stores else ''}: xAvgCharWidth is written directly (`{T(stores[0][1], 60) if stores else ''}`) instead of being derived from the compiled advances")
+    c = ix.get_method(BASE_OUTLINE, "compile", own=True)
+    cfg = prog.cfg(c)
+    a, b = calls_named(c, "setupTable_hmtx"), calls_named(c, "setupTable_OS2")
+    ok = len(a) == 1 and len(b) == 1 and cfg.dominates(cfg.node_of(a[0]), cfg.node_of(b[0]))
+    chk.ob("R04.12", f"{c.short}|hmtx is built before OS/2", ok, where(c), detail="recalcAvgCharWidth reads the hmtx table of the font being built",
+           message=f"{c.short}: OS/2 can be built before hmtx: the average width is computed from a missing table (0)")
+    chk.minimum("R04.12", 3)
+
+
 MUTANTS = [
+    M("average width computed from the unrounded source advances (seeded C04k)", "ufo2ft/outlineCompiler.py", "BaseOutlineCompiler.setupTable_OS2",
+      "os2.recalcAvgCharWidth(self.otf)", "widths = [glyph.width for glyph in self.allGlyphs.values() if glyph.width > 0]\nos2.xAvgCharWidth = otRound(sum(widths) / len(widths)) if widths else 0", rule="R04.12"),
+    M("OS/2 built before hmtx", "ufo2ft/outlineCompiler.py", "BaseOutlineCompiler.compile",
+      "self.setupTable_hmtx()\nself.setupTable_hhea()", "self.setupTable_OS2()\nself.setupTable_hmtx()\nself.setupTable_hhea()", rule="R04.12"),
     M("boxes rounded to nearest when nothing is rounded (seeded C04i)", "ufo2ft/outlineCompiler.py", "OutlineOTFCompiler.makeGlyphsBoundingBoxes",
       "tolerance = self.roundTolerance", "tolerance = self.roundTolerance\npartialRounding = 0 < tolerance < 0.5", rule="R04.11",
       also=(("ufo2ft/outlineCompiler.py", "OutlineOTFCompiler.makeGlyphsBoundingBoxes.toInt", "tolerance >= 0.5 or abs(rounded - value) <= tolerance", "not partialRounding or abs(rounded - value) <= tolerance"),)),
